@@ -209,6 +209,8 @@ pub fn fold_func_call<T: ?Sized + PlFold>(fold: &mut T, func_call: FuncCall) -> 
         named_args: func_call
             .named_args
             .into_iter()
+            // in a fixed order: folds have effects (ids, the first error that is returned)
+            .sorted_by(|a, b| a.0.cmp(&b.0))
             .map(|(name, expr)| fold.fold_expr(expr).map(|e| (name, e)))
             .try_collect()?,
     })
